@@ -91,16 +91,29 @@ Definition quiescent (s : state) : bool :=
                      | _ => false
                      end) (heap s).
 
-(* bisimulation quotient used only to keep the state sets small: Last of an entry that is no longer in the
-   table is never read again; next_tick is never read again once the sweeper returned *)
+(* used only to keep the state sets small.  (1) bisimulation quotient: Last of an entry that is no longer in
+   the table is never read again; next_tick is never read again once the sweeper returned.  (2) partial-order
+   reduction: a reply loop about to run CloseWithErr on an entry that is already closed takes the silent
+   action AClose1 (TRP e) e (result: PDone) at once - the closed flag never changes back, so this action is
+   always enabled until taken, has a fixed result and commutes with every other action. *)
 Definition in_table (s : state) (e : nat) : bool := existsb (fun p => Nat.eqb (snd p) e) (table s).
-Definition norm (s : state) : state :=
+Definition norm0 (s : state) : state :=
   mkS (table s)
       (map (fun p => let en := snd p in
-                     if in_table s (fst p) then en
-                     else mkE (e_sid en) (e_sock en) (e_closed en) 0 (e_closes en) (e_pc en))
+                     let pc := match e_pc en with PC1 => if e_closed en then PDone else PC1 | q => q end in
+                     mkE (e_sid en) (e_sock en) (e_closed en) (if in_table s (fst p) then e_last en else 0) (e_closes en) pc)
            (combine (seq 0 (length (heap s))) (heap s)))
       (rl s) (sw s) (now s) (match sw s with SDone => 0 | _ => next_tick s end) (stopped s) (nsock s).
+
+(* (3) the same reduction for the sweeper and the receive loop: entries of their to-do lists that are already
+   closed are dropped at once (CloseWithErr on them is the silent no-op AClose1 t e) *)
+Definition is_open (s : state) (e : nat) : bool :=
+  match nth_error (heap s) e with Some en => negb (e_closed en) | None => true end.
+
+Definition norm (s : state) : state :=
+  let s1 := norm0 s in
+  let s2 := match sw s1 with SClose (todo, cur) => sw_after s1 (filter (is_open s1) todo, cur) | _ => s1 end in
+  match rl s2 with RClose (todo, cur) x => rl_after s2 (filter (is_open s2) todo, cur) x | _ => s2 end.
 
 Section Acc.
 Variable timeout : N.
